@@ -448,6 +448,66 @@ func spCheckCallback(repo string, fset *token.FileSet) error {
 	return nil
 }
 
+// spHoldsMu: does offsetDB.save keep o.mu from before its first use of the shared snapshot/buffer until after
+// the rename?  true iff o.mu.Lock() is a top-level statement that precedes every mention of o.buf /
+// o.snapshotJobs, and the only o.mu.Unlock() is either deferred right there (runs at function exit, after the
+// rename) or a top-level statement after the rename.
+func spHoldsMu(fset *token.FileSet, fd *ast.FuncDecl) (bool, string) {
+	isMu := func(n ast.Node, method string) bool {
+		call, ok := n.(*ast.CallExpr)
+		if !ok {
+			return false
+		}
+		sel, ok := call.Fun.(*ast.SelectorExpr)
+		if !ok || sel.Sel.Name != method {
+			return false
+		}
+		inner, ok := sel.X.(*ast.SelectorExpr)
+		return ok && inner.Sel.Name == "mu" && isIdent(inner.X, "o")
+	}
+	lockIdx, deferUnlockIdx, unlockIdx, firstShared, renameIdx := -1, -1, -1, -1, -1
+	unlocks, locks := 0, 0
+	for i, st := range fd.Body.List {
+		if es, ok := st.(*ast.ExprStmt); ok {
+			if isMu(es.X, "Lock") && lockIdx < 0 {
+				lockIdx = i
+			}
+			if isMu(es.X, "Unlock") {
+				unlockIdx = i
+			}
+		}
+		if ds, ok := st.(*ast.DeferStmt); ok && isMu(ds.Call, "Unlock") {
+			deferUnlockIdx = i
+		}
+		ast.Inspect(st, func(n ast.Node) bool {
+			if isMu(n, "Unlock") {
+				unlocks++
+			}
+			if isMu(n, "Lock") {
+				locks++
+			}
+			if sel, ok := n.(*ast.SelectorExpr); ok && isIdent(sel.X, "o") && (sel.Sel.Name == "buf" || sel.Sel.Name == "snapshotJobs" || sel.Sel.Name == "jobsSnapshot") && firstShared < 0 {
+				firstShared = i
+			}
+			if call, ok := n.(*ast.CallExpr); ok {
+				if sel, ok := call.Fun.(*ast.SelectorExpr); ok && isIdent(sel.X, "os") && sel.Sel.Name == "Rename" {
+					renameIdx = i
+				}
+			}
+			return true
+		})
+	}
+	why := fmt.Sprintf("Lock stmt %d, defer Unlock stmt %d, Unlock stmt %d, first use of o.buf/snapshotJobs stmt %d, Rename stmt %d, %d Lock / %d Unlock calls",
+		lockIdx, deferUnlockIdx, unlockIdx, firstShared, renameIdx, locks, unlocks)
+	if lockIdx < 0 || locks != 1 || unlocks != 1 || firstShared < 0 || renameIdx < 0 || lockIdx > firstShared {
+		return false, why
+	}
+	if deferUnlockIdx >= 0 {
+		return deferUnlockIdx > lockIdx && deferUnlockIdx < firstShared, why
+	}
+	return unlockIdx > renameIdx, why
+}
+
 func genSaveProto(repo string) (string, string, error) {
 	fset := token.NewFileSet()
 	// --- file plugin
@@ -489,6 +549,7 @@ func genSaveProto(repo string) (string, string, error) {
 	if err != nil {
 		return "", "", err
 	}
+	holds, why := spHoldsMu(fset, fm["save"])
 	content := fmt.Sprintf(`(* GENERATED from /repo/plugin/input/file/offset.go (offsetDB.save) and /repo/offset/offset.go
    (Offset.Save, saveToTmp inlined) by harness/gen (translator "saveproto") — do not edit.
    One entry per file-system call in execution order; None = an error of this call is logged/ignored and
@@ -497,6 +558,10 @@ func genSaveProto(repo string) (string, string, error) {
 From Verif Require Import Base.Sx Model.FsCrash.
 
 %s
-%s`, f1.tmpExpr, f1.curExpr, f2.tmpExpr, f2.curExpr, r1, r2)
+%s
+(* offsetDB.save keeps o.mu (which guards the shared o.buf / o.jobsSnapshot) from before it builds the buffer
+   until after the rename: %s *)
+Definition save_holds_mu_until_rename : bool := %v.
+`, f1.tmpExpr, f1.curExpr, f2.tmpExpr, f2.curExpr, r1, r2, why, holds)
 	return "SaveProtocol.v", content, nil
 }
